@@ -35,7 +35,13 @@ func (m *MethodScope) AddVar(vr *types.Var, suffix string) *Var {
 		name += "MoqParam"
 	}
 	if _, ok := m.searchVar(name); ok || m.conflicted[name] {
-		name = m.resolveVarNameConflict(name)
+		numbered := m.resolveVarNameConflict(name)
+		// A type parameter named in the source keeps its name, the
+		// signatures refer to it. The generated name in its way has
+		// been numbered.
+		if !(m.typeParams && sourceNamed(vr)) {
+			name = numbered
+		}
 	}
 
 	v := Var{
@@ -69,10 +75,18 @@ func (m *MethodScope) resolveVarNameConflict(suggested string) string {
 	// On the first conflict the variable holding the plain name gets
 	// numbered as well.
 	if conflict, ok := m.searchVar(suggested); ok {
-		conflict.Name = next()
+		if !(m.typeParams && sourceNamed(conflict.vr)) {
+			conflict.Name = next()
+		}
 		m.conflicted[suggested] = true
 	}
 	return next()
+}
+
+// sourceNamed reports whether the variable has a name in the source, other
+// than the blank identifier.
+func sourceNamed(vr *types.Var) bool {
+	return vr.Name() != "" && vr.Name() != "_"
 }
 
 func (m MethodScope) searchVar(name string) (*Var, bool) {
